@@ -12,8 +12,30 @@ TB = {
 INSN_TY = {"x86": "x86_insn", "mips": "mips_insn", "ppc": "ppc_insn", "aarch64": "bad64::Op"}
 
 
+SUCC_TY = "(u64, std::option::Option<il::expression::Expression>)"
+GRAPH_TY = "il::control_flow_graph::ControlFlowGraph)"
+
+
+def _pushes(db, owner, node, elem_ty, depth=0):
+    """Number of `push` calls on a vector of the given element type in the node, counting those made by crate functions the
+    node hands such a vector to (the collections are identified by their type, not by the name of a local)."""
+    n = 0
+    for x in walk(node):
+        if x.get("k") == "MethodCall" and x["name"] == "push":
+            t = x["recv"].get("t")
+            ts = owner["types"][t] if t is not None and t < len(owner["types"]) else ""
+            if elem_ty in ts:
+                n += 1
+        elif db is not None and depth < 2 and x.get("k") in ("Call", "MethodCall"):
+            c = callee(x) or ""
+            h = db.hir.get(c) if c.startswith("translator::") and "::semantics::" not in c else None
+            if h is not None and any(elem_ty in (i or "") for i in (h.get("inputs") or [])):
+                n += _pushes(db, h, h["body"], elem_ty, depth + 1)
+    return n
+
+
 class InsnMatch:
-    def __init__(self, body, node):
+    def __init__(self, body, node, db=None):
         self.node = node
         self.line = node["l"]
         self.arms = []
@@ -24,11 +46,11 @@ class InsnMatch:
             info = {
                 "ids": ids, "wild": a.wild, "line": a.line, "handlers": handlers, "callees": cs, "arm": a,
                 "breaks": any(x.get("k") == "Break" for x in walk(a.body)),
-                "returns_err": any(x.get("k") == "Ret" for x in walk(a.body)),
-                "succ_pushes": sum(1 for x in walk(a.body) if x.get("k") == "MethodCall" and x["name"] == "push" and
-                                   any(y.get("k") == "Path" and y.get("res", {}).get("local") == "successors" for y in walk(x["recv"]))),
-                "graph_pushes": sum(1 for x in walk(a.body) if x.get("k") == "MethodCall" and x["name"] == "push" and
-                                    any(y.get("k") == "Path" and y.get("res", {}).get("local") == "block_graphs" for y in walk(x["recv"]))),
+                # an error answer: `return Err(..)`, or `Err(..)` as the arm's value in a helper whose result the caller propagates
+                "returns_err": any(x.get("k") == "Ret" for x in walk(a.body)) or
+                any(x.get("k") == "Call" and last_seg(x.get("fn", {}).get("ctor_of", "") or "") == "Err" for x in walk(a.body)),
+                "succ_pushes": _pushes(db, body, a.body, SUCC_TY),
+                "graph_pushes": _pushes(db, body, a.body, GRAPH_TY),
             }
             self.arms.append(info)
 
@@ -47,15 +69,42 @@ class InsnMatch:
 
 
 def insn_matches(db, arch):
+    """The matches over the decoder's mnemonic type in translate_block and in the private functions of the architecture's
+    translator module it delegates to (a dispatch factored out into a `lift_instruction` helper is still the dispatch).
+    Order: the dispatch (most arms) first, then the others in source order."""
     hb = db.hir[TB[arch]]
+    mod = TB[arch].rsplit("::", 1)[0] + "::"
+    owners = [hb]
+    seen = {TB[arch]}
+    work = [hb]
+    while work:
+        b = work.pop()
+        for n in walk(b["body"]):
+            c = callee(n) or ""
+            if c in seen or not c.startswith("translator::") or "::semantics::" in c or c not in db.hir:
+                continue
+            if not c.startswith(mod.split("::")[0] + "::" + mod.split("::")[1] + "::"):
+                continue
+            seen.add(c)
+            h = db.hir[c]
+            if h.get("vis") == "Public" and not c.startswith(mod):
+                continue
+            owners.append(h)
+            work.append(h)
     out = []
-    for n in walk(hb["body"]):
-        if n.get("k") == "Match" and n.get("src") == "Normal":
-            t = n["scrut"].get("t")
-            ts = hb["types"][t] if t is not None else ""
-            if INSN_TY[arch] in ts:
-                out.append(InsnMatch(hb, n))
+    for ob in owners:
+        for n in walk(ob["body"]):
+            if n.get("k") == "Match" and n.get("src") == "Normal":
+                t = n["scrut"].get("t")
+                ts = ob["types"][t] if t is not None else ""
+                if INSN_TY[arch] in ts:
+                    m = InsnMatch(ob, n, db)
+                    m.owner = ob
+                    out.append(m)
     out.sort(key=lambda m: m.line)
+    if out:
+        disp = max(out, key=lambda m: len(m.arms))
+        out = [disp] + [m for m in out if m is not disp]
     return hb, out
 
 
